@@ -3,10 +3,13 @@ import math
 
 from harness import dtwgen
 
-COQ_FILES = ["theories/BandTie.v", "gen/Gen_cmem.v", "theories/Mem.v", "theories/CBand.v", "gen/Gen_cwps.v", "theories/CWps.v", "props/C08.v"]
+COQ_FILES = ["theories/BandTie.v", "gen/Gen_cmem.v", "theories/Mem.v", "theories/CBand.v", "gen/Gen_cwps.v", "theories/CWps.v", "gen/Gen_cfill.v", "theories/CFill.v",
+             "props/C08.v"]
 THEOREMS = [("DVProps.C08", "C08_psi_prologue_in_allocation"), ("DVProps.C08", "C08_psi_scan_in_row"),
             ("DVProps.C08", "C08_band_write_in_buffer"), ("DVProps.C08", "C08_c_row_loop_accesses_in_buffer"),
-            ("DVProps.C08", "C08_compact_slot_in_row"), ("DVProps.C08", "C08_compact_shift_steps")]
+            ("DVProps.C08", "C08_compact_slot_in_row"), ("DVProps.C08", "C08_compact_shift_steps"),
+            ("DVProps.C08", "C08_fill_loops_follow_the_layout"), ("DVProps.C08", "C08_fill_skip_loops_bounded"),
+            ("DVProps.C08", "C08_fill_skip_in_row")]
 TRUSTED_BASE = [
     "Coq 8.16.1 kernel",
     "tools/translate_c.py: buffer length, allocation size, psi prologue bound and psi scan bounds of the four "
@@ -92,6 +95,9 @@ def gen_cases(rng, tier):
             if rt == "affinity":
                 st["psi"] = [0, 0, 0, 0]
                 st["inner_dist"] = "squared euclidean"
+                # only_triu is an option of the routine for ANY two series (the rows below the last column are then
+                # skipped entirely), not only for self-comparison
+                case["only_triu"] = bool(case["self"]) or rng.random() < 0.4
         if rt == "expand_slice":
             rb = rng.randint(0, r)
             re = rng.randint(rb + 1, r + 1)
@@ -141,7 +147,8 @@ def impl_run(case):
             L.dtw_warping_paths(wps, a, r, b, c, True, True, False, C.byref(st))
         else:
             L.dtw_warping_paths_affinity(wps, a, r, (a if case.get("self") else b), c, True, True, False,
-                                         bool(case.get("self")), 1.0, 0.2, -0.4, 0.9, C.byref(st))
+                                         bool(case.get("only_triu", case.get("self"))), 1.0, 0.2, -0.4, 0.9,
+                                         C.byref(st))
         p = L.dtw_wps_parts(r, c, C.byref(st))
         mr = craw.idx_t(0)
         mc = craw.idx_t(0)
